@@ -182,11 +182,13 @@ class FixedAlt:
 class Coll:
     """list / dict of strings filled by the code under analysis (immutable value: updates rebind the variable)"""
 
-    def __init__(self, kind, elems=(), what="", asc=False, bylabel=False):
+    def __init__(self, kind, elems=(), what="", asc=False, bylabel=False, keyel=None):
         self.kind, self.elems, self.what, self.asc, self.bylabel = kind, list(elems), what, asc, bylabel
+        self.keyel = keyel            # a map whose keys are texts: what a key looks like
 
     def plus(self, st, **kw):
-        c = Coll(self.kind, self.elems + ([st] if st not in self.elems else []), kw.get("what", self.what), kw.get("asc", self.asc), kw.get("bylabel", self.bylabel))
+        c = Coll(self.kind, self.elems + ([st] if st not in self.elems else []), kw.get("what", self.what), kw.get("asc", self.asc), kw.get("bylabel", self.bylabel),
+                 kw.get("keyel", self.keyel))
         return c
 
     def union(self, o):
@@ -194,7 +196,8 @@ class Coll:
         for x in o.elems:
             if x not in el:
                 el.append(x)
-        return Coll(self.kind, el, self.what or o.what, self.asc and o.asc, self.bylabel or o.bylabel)
+        ke = self.keyel if o.keyel is None else (o.keyel if self.keyel is None else join_str(self.keyel, o.keyel))
+        return Coll(self.kind, el, self.what or o.what, self.asc and o.asc, self.bylabel or o.bylabel, ke)
 
     def elem(self):
         if not self.elems:
@@ -365,7 +368,11 @@ class ShapeInterp:
             k = self.ev(fi, st.targets[0].slice, env)
             v = self.tostr(self.ev(fi, st.value, env), fi, st)
             env = dict(env)
-            env[name] = env[name].plus(v, bylabel=isinstance(k, Int))
+            cur_ = env[name]
+            if isinstance(k, Str) and not cur_.bylabel:
+                env[name] = cur_.plus(v, keyel=k if cur_.keyel is None else join_str(cur_.keyel, k))
+            else:
+                env[name] = cur_.plus(v, bylabel=isinstance(k, Int))
             return [env]
         if isinstance(st, ast.Assign) and isinstance(st.value, ast.IfExp) and len(st.targets) == 1 and isinstance(st.targets[0], ast.Name):
             # x = A if T else B  with values that are not texts: the two branches as two paths (as an if statement would be)
@@ -752,7 +759,7 @@ class ShapeInterp:
         """(truth, env') for the feasible branches"""
         if isinstance(test, ast.NamedExpr) and isinstance(test.target, ast.Name):
             env2 = dict(env)
-            env2[test.target.id] = self.ev(fi, test.value, env)
+            env2[test.target.id] = self.ev(fi, test.value, env2)      # what the value's evaluation changes (Counter.pop) is seen by the branches
             return self.refine(fi, ast.copy_location(ast.Name(test.target.id, ast.Load()), test), env2)
         if isinstance(test, ast.Name) and isinstance(env.get(test.id), bool):
             return [(env[test.id], env)]
@@ -869,6 +876,13 @@ class ShapeInterp:
         if isinstance(test, ast.BoolOp):
             # explore both outcomes without refinement
             return [(True, env), (False, env)]
+        if isinstance(test, ast.Call) and isinstance(test.func, ast.Name) and test.func.id not in env:
+            # a yes/no question put to the molecule by a helper of the repository (`_has_node_attributes(m)`): both answers
+            r_ = self.repo.resolve(fi.module, test.func.id)
+            if r_ and r_[0] == "func" and annotation_name(r_[1].node.returns) == "bool" and test.args \
+                    and all(isinstance(self._peek(fi, a_, env), Graph) for a_ in test.args) and not test.keywords:
+                self.notes.append(f"{fi.loc(test)}: `{short(test)}` answers yes or no about the molecule: both branches interpreted")
+                return [(True, env), (False, env)]
         raise AnalysisError(f"shape interpreter: branch condition `{short(test)}` at {fi.loc(test)} not understood")
 
     def tostr(self, v, fi=None, node=None) -> Str:
@@ -1213,8 +1227,13 @@ class ShapeInterp:
                     return SymSeq(a.elem(), asc=False, what=a.what)
                 if isinstance(a, SymSeq):
                     # sorted by label only if the first component of the elements is the label itself
-                    bylab = isinstance(a.elem, (Int, Pair)) and not isinstance(a.elem, Str)
-                    return SymSeq(a.elem, asc=bylab, what=a.what)
+                    first_ = a.elem.items[0] if isinstance(a.elem, Pair) and a.elem.items else a.elem
+                    if isinstance(first_, Int):
+                        return SymSeq(a.elem, asc=True, what=a.what)
+                    if isinstance(first_, Pair) and all(isinstance(x_, Int) for x_ in first_.items):
+                        return SymSeq(a.elem, asc=True, what=a.what)
+                    # texts sort character by character ("(10:" before "(9:"), not by the number they hold; anything else: not known
+                    return SymSeq(a.elem, asc=False if isinstance(first_, Str) else None, what=a.what)
                 if isinstance(a, Pair):
                     return Pair(*a.items, asc=True)
                 if isinstance(a, SortedItems):
@@ -1279,7 +1298,8 @@ class ShapeInterp:
             if isinstance(recv, (SortedItems, UnsortedItems)) and attr == "items":
                 return recv
             if isinstance(recv, Coll) and recv.kind == "map" and attr in ("items", "values"):
-                el = Pair(Int(0), recv.elem()) if attr == "items" and recv.bylabel else (Pair(Opaque("key"), recv.elem()) if attr == "items" else recv.elem())
+                el = Pair(Int(0), recv.elem()) if attr == "items" and recv.bylabel else \
+                    (Pair(recv.keyel if recv.keyel is not None else Opaque("key"), recv.elem()) if attr == "items" else recv.elem())
                 return SymSeq(el, asc=False, what=recv.what or "nodes")
             if isinstance(recv, RecMap) and attr == "items":
                 return SymSeq(Pair(Int(0), RecAlt(recv.alts)), asc=False, what="nodes")
